@@ -369,7 +369,7 @@ Definition step (s : state) (a : action) : option state :=
   | ACrash p =>
       Some (set_env
               (set_conns s (fun c => match conns s c with
-                                     | Some x => if (cpeer x =? p) && negb (sink x) then Some (set_alive x false) else Some x
+                                     | Some x => Some (if (cpeer x =? p) && negb (sink x) then set_alive x false else x)
                                      | None => None
                                      end))
               (upd (listening s) p false) (incn s))
@@ -379,7 +379,7 @@ Definition step (s : state) (a : action) : option state :=
   | AClose =>
       Some (set_closed
               (set_conns s (fun c => match conns s c with
-                                     | Some x => if mem c (table s (cpeer x)) then Some (set_lclosed x true) else Some x
+                                     | Some x => Some (if mem c (table s (cpeer x)) then set_lclosed x true else x)
                                      | None => None
                                      end))
               true)
